@@ -383,7 +383,23 @@ def run(rep, tier):
     flushed_first = bool(wr_meta) and any(set(prog.callee_nodes(e)) & si and all(um.dominates(e.block, w.block) for w in wr_meta) for e in um.calls())
     # or: the registry it writes is not the live one (it is derived from the last persisted index set)
     live_registry = any(e.name.endswith("Collection::metadata") for e in um.calls())
-    rep.ob("R02.9", "unclaimed-metadata-names-only-persisted-indexes|store_metadata_unclaimed", flushed_first or not live_registry,
+    # or: the three index maps of the snapshot it writes are cut down (retain) against a registry of persisted indexes the collection keeps
+    cut = [e for e in um.calls_named(r"BTreeMap::<K, V, A>::retain$|BTreeMap::<K, V>::retain$")]
+    cut_fields = set()
+    for e in cut:
+        cut_fields |= um.slice_fields(e.args[0])
+    # by shape: the predicate handed to retain captures something read from a field of the collection other than the live metadata
+    keeps_registry = False
+    for e in cut:
+        for a in e.args[1:]:
+            for o in um.slice_back_op(a):
+                if o[0] == "create":
+                    for op_ in getattr(o[1], "ops", []) or []:
+                        fl = um.slice_fields(op_, through=lambda ev: True)
+                        if "self" in fl and (fl - {"self", "metadata", "0", "1", "2"}):
+                            keeps_registry = True
+    filtered = {"btree_indexes", "bm25_indexes", "hnsw_indexes"} <= cut_fields and keeps_registry
+    rep.ob("R02.9", "unclaimed-metadata-names-only-persisted-indexes|store_metadata_unclaimed", flushed_first or not live_registry or filtered,
            "store_metadata_unclaimed (save_extension, remove_extension, cleanup_removed_index) PUTs the live metadata registry without the `indexes before metadata` "
            "order of flush_inner: an index created in this handle whose postings exist only in memory becomes durably registered - after a crash it bootstraps "
            "empty, create_*_index_nx swallows AlreadyExists and the repair scan only covers ids above the checkpoint, so `score == 7` answers [] for documents 1-3 for good",
